@@ -57,6 +57,7 @@ def overlap_exceeds_half(a, b):
     return (rd < 0 and -2 * rd > rl) or (qd < 0 and -2 * qd > ql)
 
 
+@core.guarded(lambda rev, variant, mult, sub, nempty, *a: dict(reverse=rev, variant=variant, multiplier=mult, subset=list(sub), empties=nempty))
 def check_case(rev, variant, mult, sub, nempty, acc, cache=None):
     scorer = SequentialityScorer(mult, variant)
     chainer = SegmentChainer(scorer)
